@@ -72,4 +72,49 @@ KnownUnique(Active, I, Alt, P) == KU_BitwiseConst(Active, I) \/ KU_DivMod(Active
 (* C03 (enforcement) *)
 KnownEnforced(Active, I, P) == FALSE
 KnownSameRel(Active, I, P) == FALSE
+
+(* ----------------------------------------------------------------------- *)
+(* C05 (agreement with Python semantics).  E is the judged event.          *)
+KA1(E) == E.args[1][1]
+KA2(E) == E.args[2][1]
+TwoScalars(E) == Len(E.args) = 2 /\ Len(E.args[1]) = 1 /\ Len(E.args[2]) = 1
+
+(* C05-bool-pow-zero-exponent: LinCombBool ** e ignores e (returns b # 0), so 0 ** 0 is 0 instead of 1.   *)
+KR_BoolPow(Active, E) ==
+    /\ IsActive(Active, "C05-bool-pow-zero-exponent")
+    /\ E.op = "bin" /\ E.name = "pow" /\ TwoScalars(E) /\ KA1(E).k = "bool"
+    /\ KA1(E).v = 0 /\ KA2(E).v = 0 /\ Len(E.res) = 1 /\ E.res[1].v = 0
+    /\ Note("C05-bool-pow-zero-exponent", <<KA1(E).v, KA2(E).v>>)
+
+(* C05-invert-unsigned: ~x on a secret integer returns the bitlength-bit unsigned complement 2^BL-1-x  *)
+(* instead of Python's -x-1 (x >= 0; negative x raises).                                             *)
+KR_Invert(Active, E, BL) ==
+    /\ IsActive(Active, "C05-invert-unsigned")
+    /\ E.op = "un" /\ E.name = "invert" /\ Len(E.args) = 1 /\ Len(E.args[1]) = 1 /\ KA1(E).k = "int"
+    /\ KA1(E).v >= 0 /\ Len(E.res) = 1 /\ E.res[1].v = 2 ^ BL - 1 - KA1(E).v
+    /\ Note("C05-invert-unsigned", <<KA1(E).v, BL>>)
+
+(* C05-pow-secret-exponent-mod-p: x ** e and x << e with a secret e reduce the reported value modulo   *)
+(* the field prime, so results outside 0..p-1 (negative or large) come back as their residue.        *)
+KPow(a, e) == IF e <= 0 THEN 1 ELSE a ^ e
+KR_PowModP(Active, E, P) ==
+    /\ IsActive(Active, "C05-pow-secret-exponent-mod-p")
+    /\ E.op = "bin" /\ E.name \in {"pow", "lshift"} /\ TwoScalars(E) /\ KA2(E).k = "int" /\ KA1(E).k \in {"int", "pyint"}
+    /\ KA2(E).v >= 0 /\ Len(E.res) = 1
+    /\ IF E.name = "pow"
+       THEN LET exact == KPow(KA1(E).v, KA2(E).v) IN (exact < 0 \/ exact >= P) /\ E.res[1].v = exact % P
+       ELSE KPow(2, KA2(E).v) >= P /\ E.res[1].v = KA1(E).v * (KPow(2, KA2(E).v) % P)
+    /\ Note("C05-pow-secret-exponent-mod-p", <<E.name, KA1(E).v, KA2(E).v>>)
+
+KnownRef(Active, E, BL, P) == KR_BoolPow(Active, E) \/ KR_Invert(Active, E, BL) \/ KR_PowModP(Active, E, P)
+
+(* C05-negative-divisor-raises: // % divmod by a negative divisor (secret or constant) raise although   *)
+(* the divisor is non-zero: the remainder range gadget only handles 0 <= rem < divisor.               *)
+KX_NegDivisor(Active, E) ==
+    /\ IsActive(Active, "C05-negative-divisor-raises")
+    /\ E.op = "bin" /\ E.name \in {"floordiv", "mod", "divmod"} /\ TwoScalars(E)
+    /\ KA2(E).v < 0 /\ E.out = "raise"
+    /\ Note("C05-negative-divisor-raises", <<E.name, KA2(E).v>>)
+
+KnownRaise(Active, E, BL, P) == KX_NegDivisor(Active, E)
 =============================================================================
